@@ -10,6 +10,11 @@ try:
     gen_tables.generate_all()
 except ImportError:
     pass
+try:
+    import gen_state
+    gen_state.generate()
+except Exception as e:  # a changed source shape is reported by the check itself
+    sys.stderr.write("gen_state: %s\n" % e)
 def write_roots():
     """root modules importing every project module, so that a bare `lake build` checks everything"""
     lean = os.path.join(VERIF, "lean")
